@@ -258,7 +258,8 @@ def mini_scenario(
 ):
     """kind: 'switched' (2 hosts + server on a switch) or 'routed' (host - router - server).
     obs_variant: 'exact' (as many components listed as the num_* sizes), 'surplus' (more services / applications /
-    folders / files listed than num_*: the surplus is truncated with a warning) or 'padded' (fewer listed than num_*)."""
+    folders / files listed than num_*: the surplus is truncated with a warning), 'padded' (fewer listed than num_*) or
+    'no_users' (include_users: false for every observed node)."""
     nodes = []
     links = []
     if kind == "switched":
@@ -395,6 +396,8 @@ def mini_scenario(
         }
     elif obs_variant == "padded":
         nodes_opts.update({"num_services": 3, "num_applications": 2, "num_folders": 2, "num_files": 2, "num_nics": 2})
+    elif obs_variant == "no_users":
+        nodes_opts["include_users"] = False
     if kind == "routed":
         nodes_opts["routers"] = [{"hostname": "router_1"}]
     elif kind == "firewalled":
